@@ -76,7 +76,15 @@ func main() {
 		}
 		if len(os.Args) > 3 && os.Args[3] == "mods" {
 			m, top := w.modSetOf(fn, nil, nil)
-			fmt.Println("top:", top)
+			mi := w.modInfoOf(fn, map[*ssa.Function]bool{})
+			fmt.Println("top:", top, "own top:", mi.top, "dynParams:", mi.dynParams)
+			for _, c := range mi.callees {
+				tmp := &modInfo{names: map[string]bool{}, dynParams: map[int]bool{}}
+				w.calleeEffect(fn, c, tmp, map[*ssa.Function]bool{})
+				if tmp.top {
+					fmt.Println("  top from:", c.String())
+				}
+			}
 			for _, n := range heapNames(m) {
 				fmt.Println("  ", n)
 			}
@@ -291,6 +299,9 @@ func runCheck(repo, prop, tier string, keep bool, only string, noEvidence bool) 
 			continue
 		}
 		funcsUnder = append(funcsUnder, fr.Name)
+		if os.Getenv("GOVC_NOTES") != "" && len(fr.HavocNotes) > 0 {
+			fmt.Fprintf(os.Stderr, "notes %s: %v\n", fr.Name, fr.HavocNotes)
+		}
 		if fr.Consistency == "unsat" {
 			// contradictory assumptions: every obligation of this function is vacuous
 			fmt.Printf("ERROR inconsistent-assumptions: %s (contracts, type invariants or library models contradict each other; nothing proved about this function is believed)\n", fr.Name)
